@@ -75,45 +75,11 @@ func runC12(c *Ctx) {
 		c.Undecided(rule, name+"|get", serve.Pos(), fmt.Sprintf("expected one lru.Get, found %d", len(gets)))
 	} else {
 		keyv := gets[0].Call.Args[1]
-		// direct ingredients only: do not look through the calls that produce them
-		// (fmt.Sprintf and string concatenation are the only calls expanded)
-		sl := backSlice(keyv, func(v ssa.Value) bool {
-			call, ok := v.(*ssa.Call)
-			if !ok {
-				return false
-			}
-			if f := calleeOf(call.Common()); f != nil && f.Pkg() != nil && (f.Pkg().Path() == "fmt" || f.Pkg().Path() == "strings") {
-				return false
-			}
-			return true
-		})
+		// direct ingredients only: calls are not looked through, except fmt/strings/strconv and (one level
+		// deep) module helpers whose parameters are then followed at the call site
 		fLoc := c.Field("db", "Location", "LocID")
 		has := map[string]bool{}
-		for v := range sl {
-			switch x := v.(type) {
-			case *ssa.FieldAddr:
-				if fieldOf(x) == fLoc {
-					has["location-id"] = true
-				}
-			case *ssa.Field:
-				if fieldOf(x) == fLoc {
-					has["location-id"] = true
-				}
-			case *ssa.Call:
-				if f := calleeOf(x.Common()); f != nil && f.Pkg() != nil && f.Pkg().Path() == requestPkg {
-					switch funcShort(f) {
-					case "Request.QType":
-						has["qtype"] = true
-					case "Request.QClass":
-						has["qclass"] = true
-					case "Request.Name":
-						has["lowercased-name"] = true
-					case "Request.QName":
-						has["original-case-name"] = true
-					}
-				}
-			}
-		}
+		keyIngredients(c, keyv, fLoc, nil, 2, has)
 		for _, comp := range []string{"location-id", "qtype", "qclass", "lowercased-name"} {
 			c.Check(rule, name+"|key-depends-on|"+comp, has[comp], gets[0].Pos(), "cache key component "+comp+" (two queries differing in it must not share an entry)")
 		}
@@ -616,6 +582,79 @@ func c12Generation(c *Ctx, rule string, serve *ssa.Function, adds []*cacheInsert
 				}
 			}
 			c.Check(rule, fnName(rf)+"|bumps-generation-with-swap", okb, rf.Pos(), "every successful reload changes the generation under the write lock, so stale inserts are refused after the purge")
+		}
+	}
+}
+
+
+// keyIngredients collects what a cache key is made of. frame maps the parameters of the helper being looked
+// into to the actual arguments at its call site.
+func keyIngredients(c *Ctx, v ssa.Value, fLoc *types.Var, frame map[*ssa.Parameter]ssa.Value, depth int, has map[string]bool) {
+	expand := func(call *ssa.Call) bool { // calls whose arguments are ingredients themselves
+		f := calleeOf(call.Common())
+		if f == nil || f.Pkg() == nil {
+			return false
+		}
+		switch f.Pkg().Path() {
+		case "fmt", "strings", "strconv", "bytes":
+			return true
+		}
+		return false
+	}
+	sl := backSlice(v, func(x ssa.Value) bool {
+		call, ok := x.(*ssa.Call)
+		if !ok {
+			return false
+		}
+		if _, isB := call.Call.Value.(*ssa.Builtin); isB {
+			return false
+		}
+		return !expand(call)
+	})
+	for x := range sl {
+		switch y := x.(type) {
+		case *ssa.FieldAddr:
+			if fieldOf(y) == fLoc {
+				has["location-id"] = true
+			}
+		case *ssa.Field:
+			if fieldOf(y) == fLoc {
+				has["location-id"] = true
+			}
+		case *ssa.Parameter:
+			if frame != nil {
+				if actual, ok := frame[y]; ok {
+					keyIngredients(c, actual, fLoc, nil, depth, has)
+				}
+			}
+		case *ssa.Call:
+			f := calleeOf(y.Common())
+			if f != nil && f.Pkg() != nil && f.Pkg().Path() == requestPkg {
+				switch funcShort(f) {
+				case "Request.QType":
+					has["qtype"] = true
+				case "Request.QClass":
+					has["qclass"] = true
+				case "Request.Name":
+					has["lowercased-name"] = true
+				case "Request.QName":
+					has["original-case-name"] = true
+				}
+				continue
+			}
+			if sf := y.Common().StaticCallee(); sf != nil && sf.Blocks != nil && sf.Pkg != nil && c.isOurs(sf.Pkg.Pkg) && depth > 0 {
+				fr := map[*ssa.Parameter]ssa.Value{}
+				for i, p := range sf.Params {
+					if i < len(y.Call.Args) {
+						fr[p] = y.Call.Args[i]
+					}
+				}
+				for _, ret := range returnsOf(sf) {
+					for _, rv := range ret.Results {
+						keyIngredients(c, rv, fLoc, fr, depth-1, has)
+					}
+				}
+			}
 		}
 	}
 }
